@@ -34,20 +34,40 @@ static Verdict check_forest_index(const TGraph &t, B &bg) {
         for (auto &e : fe) { int i = bg.idx(e); if (i < 0) return {"spanning_forest-foreign", "emitted a non-edge"}; if (!u.unite(t.edges[i][0], t.edges[i][1])) return {"spanning_forest-cycle", "emitted edges contain a cycle"}; }
     }
     parmcb::ForestIndex<G> fi(bg.g);
-    if ((int) fi.weak_connected_components() != c) return {"forestindex-components", "reports " + std::to_string(fi.weak_connected_components()) + " components, graph has " + std::to_string(c)};
-    if ((long) fi.cycle_space_dimension() != (long) m - n + c) return {"forestindex-dimension", "cycle space dimension wrong"};
-    std::vector<int> seen(m, 0);
-    UF u(n); int forest_edges = 0;
-    for (int i = 0; i < m; i++) {
-        std::size_t x = fi(bg.edge_of[i]);
-        if (x >= (std::size_t) m) return {"forestindex-range", "index out of 0..m-1"};
-        if (seen[x]++) return {"forestindex-injective", "two edges share index " + std::to_string(x)};
-        if (bg.idx(fi(x)) != i) return {"forestindex-inverse", "index-to-edge lookup is not the inverse of edge-to-index"};
-        bool onf = fi.is_on_forest(bg.edge_of[i]);
-        if (onf != (x >= fi.cycle_space_dimension())) return {"forestindex-forest-flag", "is_on_forest disagrees with index >= dimension"};
-        if (onf) { forest_edges++; if (!u.unite(t.edges[i][0], t.edges[i][1])) return {"forestindex-forest-cyclic", "edges reported on-forest contain a cycle"}; }
+    auto validate = [&](const parmcb::ForestIndex<G> &fi, const std::string &how) -> Verdict {
+        if ((int) fi.weak_connected_components() != c) return {"forestindex-components", how + " reports " + std::to_string(fi.weak_connected_components()) + " components, graph has " + std::to_string(c)};
+        if ((long) fi.cycle_space_dimension() != (long) m - n + c) return {"forestindex-dimension", how + ": cycle space dimension " + std::to_string(fi.cycle_space_dimension()) + " instead of " + std::to_string(m - n + c)};
+        std::vector<int> seen(m, 0);
+        UF u(n); int forest_edges = 0;
+        for (int i = 0; i < m; i++) {
+            std::size_t x = fi(bg.edge_of[i]);
+            if (x >= (std::size_t) m) return {"forestindex-range", how + ": index out of 0..m-1"};
+            if (seen[x]++) return {"forestindex-injective", how + ": two edges share index " + std::to_string(x)};
+            if (bg.idx(fi(x)) != i) return {"forestindex-inverse", how + ": index-to-edge lookup is not the inverse of edge-to-index"};
+            bool onf = fi.is_on_forest(bg.edge_of[i]);
+            if (onf != (x >= (std::size_t) (m - n + c))) return {"forestindex-forest-flag", how + ": is_on_forest disagrees with index >= dimension"};
+            if (onf) { forest_edges++; if (!u.unite(t.edges[i][0], t.edges[i][1])) return {"forestindex-forest-cyclic", how + ": edges reported on-forest contain a cycle"}; }
+        }
+        if (forest_edges != n - c) return {"forestindex-forest-spanning", how + ": on-forest edges do not span every component"};
+        return {};
+    };
+    Verdict v0 = validate(fi, "constructed index");
+    if (!v0.ok()) return v0;
+    {   // copies are ForestIndex objects of the same graph and must answer alike
+        parmcb::ForestIndex<G> cp(fi);
+        Verdict v1 = validate(cp, "copy-constructed index");
+        if (!v1.ok()) return v1;
+        TGraph other = wheel(4); B obg(other);
+        parmcb::ForestIndex<G> as1(obg.g);            // previously indexed a graph with cycles
+        as1 = fi;
+        Verdict v2 = validate(as1, "index assigned over an index of another graph (W4)");
+        if (!v2.ok()) return v2;
+        TGraph empty; B ebg(empty);
+        parmcb::ForestIndex<G> as2(ebg.g);            // previously indexed the empty graph
+        as2 = fi;
+        Verdict v3 = validate(as2, "index assigned over an index of the empty graph");
+        if (!v3.ok()) return v3;
     }
-    if (forest_edges != n - c) return {"forestindex-forest-spanning", "on-forest edges do not span every component"};
     return {};
 }
 
